@@ -1,10 +1,13 @@
 """C12 -- global modification rules equal the explicit per-residue form (structural necessary conditions)."""
 import ast
+import re
 
 from ..loader import AnalysisError, norm_stmt, walk_own
 from ..rules_flow import forwarding, param_reaches_returns
 from .common import add_fwd, add_ret, ret_deps_by_node
 from .common import check as ob
+from ..canon import Canon, localise, each
+from ..guards import GuardEval, UNK, dominating_tests, preceding_exits
 
 EXPLANATION = (
     'Decides: (a) the three interpreters of a static rule (mass fast path, composition path, condensation) use the '
@@ -47,7 +50,7 @@ def static_interpreters(ctx, rep, clause):
                     any(isinstance(s, ast.Continue) for s in n.body):
                 skip = {x.value for x in n.test.comparators[0].elts if isinstance(x, ast.Constant)}
             if isinstance(n, ast.Call) and isinstance(n.func, ast.Name) and n.func.id == 'parse_static_mods' and n.args:
-                source = norm_stmt(n.args[0])
+                source = Canon(f.node).text(n.args[0])
             if isinstance(n, ast.Call) and isinstance(n.func, ast.Attribute) and n.func.attr == 'count' and \
                     norm_stmt(n.func.value).endswith('.sequence'):
                 mult = True
@@ -60,11 +63,8 @@ def static_interpreters(ctx, rep, clause):
         ob(rep, 'SIB-static', fq, 'the residue loop skips exactly the two special targets',
            skip == {'N-Term', 'C-Term'}, "if aa in ['N-Term', 'C-Term']: continue", f'skips {sorted(skip or [])}',
            f.loc(), clause)
-        ok_src = source is not None and (source.endswith('.static_mods') or source == 'static_mods')
-        if source == 'static_mods':
-            # condense_static_mods pops the field first
-            ok_src = any(isinstance(n, ast.Assign) and norm_stmt(n.targets[0]) == 'static_mods' and
-                         'pop_static_mods()' in norm_stmt(n.value) for n in walk_own(f.node))
+        # the field itself, or (condense_static_mods) the value popped from the field
+        ok_src = source is not None and (source.endswith('.static_mods') or source.endswith('.pop_static_mods()'))
         ob(rep, 'SIB-static', fq, 'the rule map is parse_static_mods(<static_mods field>)', ok_src, f'{source}',
            f'parses `{source}`', f.loc(), clause)
         ob(rep, 'SIB-static', fq, 'every occurrence of a targeted residue is counted', mult,
@@ -93,23 +93,37 @@ def isotope_control(ctx, rep, clause):
                 out.add(st.targets[0].id)
         return out
     a, b = substituted(blk.body), substituted(blk.orelse)
+    # which accumulator is which is decided by what is added to it, not by its name: the residue accumulator is the
+    # one that receives the amino-acid compositions
+    residue_acc = set()
+    for n in walk_own(f.node):
+        if isinstance(n, ast.For) and norm_stmt(n.iter).endswith('.sequence') and \
+                any(isinstance(x, ast.Name) and x.id == 'AA_COMPOSITIONS' for x in ast.walk(n)):
+            for st in ast.walk(n):
+                if isinstance(st, (ast.Assign, ast.AugAssign)):
+                    tg = st.targets[0] if isinstance(st, ast.Assign) else st.target
+                    if isinstance(tg, ast.Subscript) and isinstance(tg.value, ast.Name):
+                        residue_acc.add(tg.value.id)
+    if len(residue_acc) != 1:
+        raise AnalysisError('_sequence_comp: the accumulator of the residue compositions was not recognised')
     ob(rep, 'SIB-isotope', f.fq, 'with use_isotope_on_mods both the sequence and the modification composition are '
-       'labelled', a == {'sequence_composition', 'mod_composition'}, f'{sorted(a)}', f'labelled: {sorted(a)}',
+       'labelled', len(a) == 2 and residue_acc <= a, f'{len(a)} accumulators', f'labelled: {sorted(a)}',
        f.loc(blk), clause)
     ob(rep, 'SIB-isotope', f.fq, 'without it only the sequence composition is labelled',
-       b == {'sequence_composition'}, f'{sorted(b)}', f'labelled: {sorted(b)}: a label would reach atoms inside '
+       b == residue_acc, f'{len(b)} accumulator', f'labelled: {sorted(b)}: a label would reach atoms inside '
        f'modifications although not requested (or miss the residues)', f.loc(blk), clause)
     # every contribution that comes from mod_comp(...) is accumulated in the modification composition, i.e. in the
     # accumulator that is labelled only under use_isotope_on_mods -- never in the one that is always labelled
     mod_acc = sorted(a - b)
     k = 0
+    cf = Canon(f.node)
     for n in walk_own(f.node):
         if isinstance(n, ast.For) and 'mod_comp(' in norm_stmt(n.iter):
             for st in n.body:
                 if isinstance(st, ast.Assign) and isinstance(st.targets[0], ast.Subscript):
                     k += 1
                     tgt = norm_stmt(st.targets[0].value)
-                    ob(rep, 'SIB-isotope', f.fq, f'`{norm_stmt(st)}` (atoms of a modification) goes to the modification '
+                    ob(rep, 'SIB-isotope', f.fq, f'`{cf.text(st)}` (atoms of a modification) goes to the modification '
                        f'accumulator', [tgt] == mod_acc, f'{tgt}',
                        f'atoms of a modification are added to `{tgt}`, which is isotope-labelled unconditionally: a '
                        f'global label reaches atoms inside that modification although use_isotope_on_mods is off',
@@ -126,13 +140,49 @@ def isotope_control(ctx, rep, clause):
                                          'peptacular.mass_calc:comp'}), clause)
     rep.floor('FWD', 'use_isotope_on_mods / isotope_mods forwarding sites', n, 5)
     # the substitution itself moves the whole count of the element to the label
-    g = program.func('peptacular.chem.chem_calc:apply_isotope_mods_to_composition')
+    g = localise(program.func('peptacular.chem.chem_calc:apply_isotope_mods_to_composition'),
+                 {'element': each(lambda t: t.endswith('.items()'), (0,)),
+                  'isotope_label': each(lambda t: t.endswith('.items()'), (1,))})
+    relabel_guard(g, rep, clause)
     txt = ' '.join(norm_stmt(s) for s in ast.walk(g.node) if isinstance(s, (ast.Assign, ast.AugAssign, ast.Delete)))
     ok = 'composition[isotope_label] += composition[element]' in txt and \
          'composition[isotope_label] = composition[element]' in txt and 'del composition[element]' in txt
     ob(rep, 'SIB-isotope', g.fq, 'the whole count of the element moves to the isotope key', ok,
        'add to / create the label key, delete the element key', 'the substitution no longer moves the complete count',
        g.loc(), clause)
+
+
+def relabel_guard(g, rep, clause):
+    """the move element -> label runs for every element the composition lists with a non-zero count (modifications
+    that remove atoms give negative counts): decided over the finite set of cases {absent, negative, positive}"""
+    dels = [n for n in ast.walk(g.node) if isinstance(n, ast.Delete) and norm_stmt(n.targets[0]) == 'composition[element]']
+    if len(dels) != 1:
+        raise AnalysisError('apply_isotope_mods_to_composition: `del composition[element]` not found')
+    loop = None
+    for n in walk_own(g.node):
+        if isinstance(n, ast.For) and any(x is dels[0] for x in ast.walk(n)):
+            loop = n
+    if loop is None:
+        raise AnalysisError('apply_isotope_mods_to_composition: the loop over the label map was not found')
+    c = Canon(g.node)
+    tests = list(dominating_tests(loop, dels[0])) + [(t, False) for t in preceding_exits(loop.body, dels[0])]
+    bad = None
+    for count in (-3, -1, -0.5, 0.5, 1, 4):
+        env = {'element in composition': True, 'element not in composition': False,
+               'composition.get(element, 0)': count, 'composition.get(element)': count,
+               'composition.get(element, 0.0)': count, 'composition[element]': count,
+               'element == isotope_label': False, 'element != isotope_label': True,
+               'isotope_label == element': False, 'isotope_label != element': True}
+        ge = GuardEval(env, c.aliases())
+        for t, pol in tests:
+            v = ge.eval(t)
+            if v is not UNK and bool(v) != pol and bad is None:
+                bad = (count, norm_stmt(t))
+    ob(rep, 'SIB-isotope', g.fq, 'every listed element with a non-zero count is relabelled (negative counts included)',
+       bad is None, 'guards decided for counts in {-3, -1, -0.5, 0.5, 1, 4}',
+       f'for a count of {bad[0] if bad else ""} the guard `{bad[1] if bad else ""}` skips the relabelling: atoms removed by a '
+       f'modification (negative net count) keep the unlabelled key and the labelled peptide no longer differs from '
+       f'the unlabelled one by (number of atoms) x (isotope mass difference)', g.loc(dels[0]), clause)
 
 
 def _split_consts(f):
@@ -202,8 +252,9 @@ def routing(ctx, rep, clause):
     t = norm_stmt(route.test)
     ob(rep, 'SIB-route', fq, 'the composition path is taken exactly when isotope labels are present',
        t == 'isotope_mods is not None and len(isotope_mods) > 0', t, f'route condition is `{t}`', f.loc(route), clause)
+    cm = Canon(f.node)
     pre = [n for n in walk_own(f.node) if isinstance(n, ast.If) and
-           norm_stmt(n.test) == 'annotation.isotope_mods is not None and isotope_mods is None']
+           re.fullmatch(r'.+\.isotope_mods is not None and isotope_mods is None', cm.text(n.test))]
     ob(rep, 'SIB-route', fq, 'labels written in the sequence are used when none are passed', len(pre) == 1,
        'isotope_mods = annotation.isotope_mods', 'labels of the annotation are no longer picked up', f.loc(), clause)
     ps = ['charge', 'ion_type', 'monoisotopic', 'isotope', 'loss', 'charge_adducts', 'isotope_mods',
